@@ -151,10 +151,33 @@ func writeIndex(file, writer string, rows []map[string]string) (res *builtIndex)
 	res = &builtIndex{file: file, outcome: "OK"}
 	msg, ok := guard(func() {
 		switch writer {
-		case "mem", "memdb", "mem2":
+		case "mem", "memdb", "mem2", "memr", "mem3":
 			w := updog.NewIndexWriter(file)
-			for _, r := range rows {
-				id, err := w.AddRow(r)
+			reuse := map[string]string{} // memr: the caller refills ONE map object for every row
+			for i, r := range rows {
+				if writer == "mem3" && i == len(rows)/2 {
+					// mem3: written out once half-way (throw-away database), then more rows, then Flush
+					db, err := bbolt.Open(file+".half", 0644, nil)
+					if err != nil {
+						fatal("bbolt open: %v", err)
+					}
+					if err := w.WriteToBoltDatabase(db); err != nil {
+						res.outcome = "ERR"
+					}
+					db.Close()
+					os.Remove(file + ".half")
+				}
+				row := r
+				if writer == "memr" {
+					for k := range reuse {
+						delete(reuse, k)
+					}
+					for k, v := range r {
+						reuse[k] = v
+					}
+					row = reuse
+				}
+				id, err := w.AddRow(row)
 				if err != nil {
 					res.outcome = "ERR"
 					return
@@ -173,7 +196,7 @@ func writeIndex(file, writer string, rows []map[string]string) (res *builtIndex)
 				db.Close()
 				os.Remove(file + ".first")
 			}
-			if writer == "mem" || writer == "mem2" {
+			if writer == "mem" || writer == "mem2" || writer == "memr" || writer == "mem3" {
 				if err := w.Flush(); err != nil {
 					res.outcome = "ERR"
 				}
@@ -187,7 +210,7 @@ func writeIndex(file, writer string, rows []map[string]string) (res *builtIndex)
 				}
 				db.Close()
 			}
-		case "big":
+		case "big", "bigr":
 			db, err := bbolt.Open(file, 0644, nil)
 			if err != nil {
 				fatal("bbolt open: %v", err)
@@ -203,7 +226,17 @@ func writeIndex(file, writer string, rows []map[string]string) (res *builtIndex)
 				res.outcome = "ERR"
 				return
 			}
+			reuse := map[string]string{} // bigr: the caller refills ONE map object for every row
 			for _, r := range rows {
+				if writer == "bigr" {
+					for k := range reuse {
+						delete(reuse, k)
+					}
+					for k, v := range r {
+						reuse[k] = v
+					}
+					r = reuse
+				}
 				id, err := w.AddRow(r)
 				if err != nil {
 					res.outcome = "ERR"
